@@ -58,7 +58,7 @@ class C07(Check):
                  'S-mixed': ['one', 'all', 'arr', 'sub', 'nv', 'ev', 'edge', 'copy', 'derive', 'adapt', 'adapt']}[stratum]
         derived = False
         opnames = sorted({o for (_, o) in net.inst})
-        for j in range(rng.randint(1, 6)):
+        for j in range(rng.randint(1, 10 if tier == 'thorough' else 6)):
             k = rng.choice(kinds)
             opn = rng.choice(opnames)
             lib = [i['lib'] for (n, o), i in net.inst.items() if o == opn][0]
